@@ -10,6 +10,7 @@ package motion
 
 import (
 	"fmt"
+	"sync/atomic"
 	"testing"
 
 	"github.com/TheCacophonyProject/go-cptv/cptvframe"
@@ -412,6 +413,87 @@ func TestVerif_C19(t *testing.T) {
 			}
 			c.Count("twin_ring_runs", 1)
 			c.Nontrivial(vNewHash().U64(uint64(myIdx)).Int(N).Int(k).Sum())
+		})
+	}
+
+	// Part: a reader takes CopyRecent while the producer fills Current() and moves on, as the
+	// D-Bus snapshot path does next to the frame loop. Small rings (2..4 slots: the slot read from
+	// is refilled soonest there). Every copy must be one whole frame, and one that was the most
+	// recently completed frame at some moment during the call.
+	ncc := c.N(6, 96)
+	for s := int64(0); s < ncc; s++ {
+		myIdx := idx
+		idx++
+		if !c.Mine(myIdx) {
+			continue
+		}
+		N := 2 + int(myIdx%3)
+		total := int(c.N(40000, 400000))
+		c.Case(myIdx, func() interface{} {
+			return map[string]interface{}{"capacity": N, "frames_produced": total, "reader": "CopyRecent in a loop on another goroutine"}
+		}, func() {
+			cam := vCam{8, 6, 9}
+			fl := NewFrameLoop(N, cam)
+			var produced int64 // number of the frame being filled; frames below it have been moved past
+			var bad atomic.Value
+			done := make(chan struct{})
+			copies, distinct := 0, 0
+			go func() {
+				defer close(done)
+				last := -1
+				for atomic.LoadInt64(&produced) < int64(total) {
+					lo := atomic.LoadInt64(&produced)
+					f := fl.CopyRecent()
+					hi := atomic.LoadInt64(&produced)
+					id := f.Status.FrameCount
+					v := f.Pix[0][0]
+					for y := range f.Pix {
+						for _, p := range f.Pix[y] {
+							if p != v {
+								bad.Store(fmt.Sprintf("copy of frame %d mixes pixel values %d and %d (producer was between frame %d and %d)", id, v, p, lo, hi))
+								return
+							}
+						}
+					}
+					if id != 0 && uint16(id%60000+1) != v {
+						bad.Store(fmt.Sprintf("copy carries frame number %d but the pixels of frame value %d", id, v))
+						return
+					}
+					if int64(id) < lo-1 || int64(id) > hi {
+						bad.Store(fmt.Sprintf("copy is frame %d, but the producer was filling frame %d when the call began and frame %d when it returned", id, lo, hi))
+						return
+					}
+					if id != last {
+						distinct++
+						last = id
+					}
+					copies++
+				}
+			}()
+			for n := 1; n <= total; n++ {
+				atomic.StoreInt64(&produced, int64(n))
+				f := fl.Current()
+				v := uint16(n%60000 + 1)
+				for y := range f.Pix {
+					for x := range f.Pix[y] {
+						f.Pix[y][x] = v
+					}
+				}
+				f.Status.FrameCount = n
+				fl.Move()
+				if bad.Load() != nil {
+					break
+				}
+			}
+			atomic.StoreInt64(&produced, int64(total))
+			<-done
+			if b := bad.Load(); b != nil {
+				c.Violation("ring-recent-copy-torn", fmt.Sprintf("capacity %d; concurrent reader", N), b.(string))
+				return
+			}
+			c.Count("concurrent_recent_copies", int64(copies))
+			c.Count("concurrent_recent_distinct_frames", int64(distinct))
+			c.Nontrivial(vNewHash().U64(uint64(myIdx)).Int(N).Sum())
 		})
 	}
 }
